@@ -78,11 +78,45 @@ C17Cases == [s \in DOMAIN SgdShapes |->
       @@ [root |-> 3, ties |-> FALSE, nograd |-> <<2>>, grads |-> <<TOut(1, d, SymAt("c", P))>>,
           post |-> <<EncIns(Ins("sgd", [k |-> Half, nilconf |-> FALSE], <<1>>))>>, postouts |-> <<TOut(4, d, TSgd(Half))>>]]
 
-Cases == MyCases(CASE Fam = "c03" -> C03Cases [] Fam = "c14" -> C14Cases [] Fam = "c05" -> C05Cases
+(* ---- c06: data movement and deterministic constructors ---- *)
+Rng(dims) == [k \in DOMAIN dims |-> <<0, dims[k]>>]
+C06Cases ==
+  LET one(name, dims, ins, odims, tmpl) ==
+        BaseCase("c06", "big-" \o name, <<In("a", dims, FALSE)>>, <<"iota">>, <<ins>>) @@ [outs |-> <<TOut(2, odims, tmpl)>>]
+      tr(d) == one("transpose", d, Ins("transpose", NoPar, <<1>>), SwapLast2(d), TTranspose(d))
+      rs(d, sh) == one("reshape", d, Ins("reshape", [shape |-> sh], <<1>>), sh, TSame("a"))
+      dm(op, d, dim, od) == one(op, d, Ins(op, [dim |-> dim], <<1>>), od, TSame("a"))
+      sl(d, r) == one("slice", d, Ins("slice", [index |-> r], <<1>>), SliceDims(r), TSlice(d, r))
+      bc(d, t) == one("broadcast", d, Ins("broadcast", [shape |-> t], <<1>>), t, TBroadcastTo(d, t))
+      pa(d, r) == BaseCase("c06", "big-patch", <<In("a", d, FALSE), In("u", SliceDims(r), FALSE)>>, <<"iota", "small">>, <<Ins("patch", [index |-> r], <<1, 2>>)>>)
+                  @@ [outs |-> <<TOut(3, d, TPatch(d, r))>>]
+      cc(da, db, dim) == BaseCase("c06", "big-concat", <<In("a", da, FALSE), In("b", db, FALSE)>>, <<"iota", "small">>, <<Ins("concat", [dim |-> dim - 1], <<1, 2>>)>>)
+                  @@ [outs |-> <<TOut(3, [da EXCEPT ![dim] = da[dim] + db[dim]], TConcat(da, db, dim))>>]
+      ctor(op, par, od, tmpl) == BaseCase("c06", "big-" \o op, <<>>, <<>>, <<Ins(op, par, <<>>)>>) @@ [outs |-> <<TOut(1, od, tmpl)>>]
+  IN << tr(<<66, 64>>), tr(<<5, 16, 16>>), tr(<<3, 40, 35>>), tr(<<1030, 1>>), tr(<<2, 2, 33, 17>>), tr(<<1, 4100>>),
+        rs(<<66, 64>>, <<64, 66>>), rs(<<4100, 2>>, <<2, 4100>>), rs(<<5, 16, 16>>, <<1280>>), rs(<<4200>>, <<6, 7, 10, 10>>),
+        dm("flatten", <<5, 16, 16>>, 0, <<1280>>), dm("flatten", <<5, 16, 16>>, 1, <<5, 256>>), dm("squeeze", <<1, 4100>>, 0, <<4100>>),
+        dm("squeeze", <<66, 1, 64>>, 1, <<66, 64>>), dm("unsqueeze", <<66, 64>>, 0, <<1, 66, 64>>), dm("unsqueeze", <<66, 64>>, 2, <<66, 64, 1>>),
+        dm("unsqueeze", <<4100>>, 1, <<4100, 1>>),
+        sl(<<70, 64>>, <<<<3, 69>>, <<1, 64>>>>), sl(<<5, 16, 16>>, <<<<0, 5>>, <<2, 16>>, <<0, 15>>>>), sl(<<4200>>, <<<<7, 4190>>>>),
+        sl(<<70, 64>>, Rng(<<70, 64>>)), sl(<<2, 2100>>, <<<<1, 2>>, <<0, 2100>>>>), sl(<<1100, 4>>, <<<<0, 1100>>, <<3, 4>>>>),
+        bc(<<64>>, <<70, 64>>), bc(<<16, 1>>, <<5, 16, 16>>), bc(<<1, 1100>>, <<4, 1100>>), bc(<<1>>, <<4100>>), bc(<<3, 1, 20>>, <<2, 3, 35, 20>>),
+        pa(<<70, 64>>, <<<<2, 68>>, <<3, 63>>>>), pa(<<4200>>, <<<<50, 4150>>>>), pa(<<5, 16, 16>>, Rng(<<5, 16, 16>>)), pa(<<5, 16, 16>>, <<<<1, 5>>, <<0, 16>>, <<0, 16>>>>),
+        pa(<<1100, 4>>, <<<<0, 1100>>, <<1, 2>>>>),
+        cc(<<40, 64>>, <<33, 64>>, 1), cc(<<66, 30>>, <<66, 40>>, 2), cc(<<5, 16, 8>>, <<5, 16, 9>>, 3), cc(<<2100>>, <<2100>>, 1), cc(<<1, 4100>>, <<1, 4100>>, 1),
+        ctor("eye", [dim |-> 33], <<33, 33>>, TEye(33)), ctor("eye", [dim |-> 70], <<70, 70>>, TEye(70)),
+        ctor("full", [shape |-> <<70, 64>>, k |-> Q(-7, 2)], <<70, 64>>, Q(-7, 2)), ctor("zeros", [shape |-> <<5, 16, 16, 4>>], <<5, 16, 16, 4>>, Zero),
+        ctor("ones", [shape |-> <<4100>>], <<4100>>, One) >>
+
+Cases == MyCases(CASE Fam = "c06" -> C06Cases [] Fam = "c03" -> C03Cases [] Fam = "c14" -> C14Cases [] Fam = "c05" -> C05Cases
                    [] Fam = "c04" -> C04Cases [] Fam = "c07" -> C07Cases [] Fam = "c17" -> C17Cases)
 
 (* ---- the templates are checked against the declarative definitions on the small grid ---- *)
 Small == Shapes(3, 2) \cup {<<3>>, <<2, 3>>, <<3, 1, 2>>}
+AllRanges(d) == LET R(k) == {<<lo, hi>> : lo \in 0..(d[k] - 1), hi \in 1..d[k]} \cap {r \in (0..d[k]) \X (0..d[k]) : r[1] < r[2]}
+                    RECURSIVE Build(_)
+                    Build(k) == IF k > Len(d) THEN {<<>>} ELSE {<<r>> \o rest : r \in R(k), rest \in Build(k + 1)}
+                IN Build(1)
 UnrollAll(tmpl, n) == [p \in 1..n |-> Unroll(tmpl, ("p" :> (p - 1)), <<>>)]
 TemplatesAgree ==
   /\ \A d \in Small : \A u \in DOMAIN UnSpecs :
@@ -107,6 +141,18 @@ TemplatesAgree ==
             val(seq) == [i \in DOMAIN seq |-> Subst(seq[i], env)]
         IN /\ val(UnrollAll(TBiasGrad(B, O), O)) = val(GradDef(inputs, code, 5, 2))
            /\ val(UnrollAll(TBiasGradAsIs(B, O), O)) = val(AsIs(inputs, code, 5)[2].g)
+  /\ \A d \in Small : UnrollAll(TSame("a"), Prod(d)) = Reshape(SymT("a", d), <<Prod(d)>>).data
+  /\ \A d \in Small : Len(d) >= 2 => UnrollAll(TTranspose(d), Prod(d)) = Transpose(SymT("a", d)).data
+  /\ \A d \in Small : \A r \in AllRanges(d) :
+        /\ UnrollAll(TSlice(d, r), Prod(SliceDims(r))) = Slice(SymT("a", d), r).data
+        /\ UnrollAll(TPatch(d, r), Prod(d)) = Patch(SymT("a", d), r, SymT("u", SliceDims(r))).data
+  /\ \A d \in Small : \A dim \in DOMAIN d : \A n \in 1..3 :
+        LET bd == [d EXCEPT ![dim] = n]
+        IN UnrollAll(TConcat(d, bd, dim), Prod([d EXCEPT ![dim] = d[dim] + n])) = Concat(<<SymT("a", d), SymT("b", bd)>>, dim - 1).data
+  /\ \A t \in Small : \A k \in DOMAIN t : \A mask \in SUBSET (1..(Len(t) - k + 1)) :
+        LET src == [i \in 1..(Len(t) - k + 1) |-> IF i \in mask THEN 1 ELSE t[k - 1 + i]]
+        IN UnrollAll(TBroadcastTo(src, t), Prod(t)) = Broadcast(SymT("a", src), t).data
+  /\ \A n \in 1..4 : UnrollAll(TEye(n), n * n) = Eye(n).data
   /\ \A d \in Small : UnrollAll(TSgd(Half), Prod(d)) = SGDStep(SymT("w", d), SymT("c", d), Half).data
 ASSUME TemplatesAgree
 
